@@ -1449,6 +1449,38 @@ def _static_attr_access(mods: dict[str, Module], log: list[str]) -> None:
         log.append(f"{n} setattr/getattr call(s) with a literal name read as attribute accesses")
 
 
+def _split_chain_loops(mods: dict[str, Module], log: list[str]) -> None:
+    """`for x in itertools.chain(A, B): body` (no break / else) is read as `for x in A: body` followed by `for x in B: body`."""
+    n = 0
+    for mod in mods.values():
+        for q, _, fn in _functions_of(mod):
+            work: list[ast.AST] = [fn]
+            while work:
+                node = work.pop()
+                blocks = [getattr(node, fld) for fld in ("body", "orelse", "finalbody") if isinstance(getattr(node, fld, None), list)]
+                if isinstance(node, ast.Try):
+                    blocks += [h.body for h in node.handlers]
+                for b in blocks:
+                    i = 0
+                    while i < len(b):
+                        st = b[i]
+                        if isinstance(st, ast.For) and isinstance(st.iter, ast.Call) and ast.unparse(st.iter.func) in ("itertools.chain", "chain") and not st.iter.keywords \
+                                and len(st.iter.args) >= 2 and not any(isinstance(a, ast.Starred) for a in st.iter.args) and not st.orelse \
+                                and not any(isinstance(x, ast.Break) for x in ast.walk(st)):
+                            parts = []
+                            for a in st.iter.args:
+                                lp = ast.copy_location(ast.For(target=_clone(st.target), iter=a, body=[_clone(x) for x in st.body], orelse=[], type_comment=None), st)
+                                parts.append(ast.fix_missing_locations(lp))
+                            b[i:i + 1] = parts
+                            n += 1
+                            continue
+                        if isinstance(st, ast.stmt) and not isinstance(st, (*FuncNode, ast.ClassDef)):
+                            work.append(st)
+                        i += 1
+    if n:
+        log.append(f"{n} loop(s) over itertools.chain(...) read as consecutive loops")
+
+
 def _split_conditional_with(mods: dict[str, Module], log: list[str]) -> None:
     """`with f(x, mode=A if c else B) as v: body` with a pure test `c` is read as `if c: with f(.., A): body else: with f(.., B): body`, and inside a branch
     taken under `c` (resp. `not c`) a nested `if c:` keeps only the branch that can run."""
@@ -2004,6 +2036,7 @@ def canonicalise(mods: dict[str, Module]) -> dict:
     inl = Inliner(mods, inv)
     inl.run()
     fwd_log: list[str] = []
+    _split_chain_loops(mods, fwd_log)
     _scalarise_records(mods, inv, fwd_log)
     if any("record type" in x for x in fwd_log):
         inl2 = Inliner(mods, inv)  # a helper that took a whole record can be bound now that the record is spelled out
